@@ -1,7 +1,11 @@
 ---------------------------- MODULE CognitiveTrace ----------------------------
 (* Batch validation of recorded CognitiveDualQueryStrategy* histories        *)
-(* (force_full_budget = TRUE, integer features, stub classifier, explicit    *)
-(* manager in the exact regime) against CognitiveQS.                         *)
+(* (force_full_budget TRUE and FALSE - T.full -, integer features, stub       *)
+(* classifier, explicit manager in the exact regime) against CognitiveQS.    *)
+(* The clause names of the force_full_budget = FALSE update carry the        *)
+(* configuration class computed here (is a density-filtered candidate        *)
+(* followed by a queried one?) so that the recorded finding suppresses that  *)
+(* class only.                                                               *)
 EXTENDS CognitiveQS, Json, IOUtils, TLCExt
 
 Traces == JsonDeserialize(IOEnv.TRACE_FILE)
@@ -39,8 +43,8 @@ TQuery ==
           /\ last' = [valid |-> TRUE, xs |-> Ev.xs, us |-> Ev.us, res |-> Ev.res]
     /\ UNCHANGED <<c, cm>>
 
-TUpdate ==
-    /\ IsEvent("Update")
+TUpdateFull ==
+    /\ IsEvent("Update") /\ T.full
     /\ LET qs == [i \in DOMAIN Ev.xs |-> InSeq(i, Ev.q)]
            new == CommitFold(P, cm, qs, Ev.us, T.rnd, cm.u, 1)
        IN /\ C("window-after-update", WinOf(Ev.st.win) \in CWFold(T.cws, c, Ev.xs, 1))
@@ -48,7 +52,34 @@ TUpdate ==
           /\ c' = WinOf(Ev.st.win) /\ cm' = new
     /\ last' = NoLast
 
-TNext == TQuery \/ TUpdate
+\* force_full_budget = FALSE: the manager commits the candidates that passed the density threshold only
+FilterOutcomes(qs) ==
+    {[c |-> r.c, pass |-> r.pass,
+      m |-> CommitFold(P, cm, SelSeq(qs, r.pass), SelSeq(Ev.us, r.pass), T.rnd, cm.u, 1)]
+     : r \in CWPFold(T.cws, T.thr, c, Ev.xs, 1)}
+TUpdateFilter ==
+    /\ IsEvent("Update") /\ ~T.full
+    /\ LET qs == [i \in DOMAIN Ev.xs |-> InSeq(i, Ev.q)]
+           outs == FilterOutcomes(qs)
+           fbq == \E o \in outs : FilteredBeforeQueried(o.pass, qs)
+           okw == {o \in outs : o.c = WinOf(Ev.st.win)}
+           ok == {o \in okw : o.m = MgrOf(Ev.st.mgr)}
+       IN /\ C("window-after-update", okw # {})
+          /\ C("manager-commits-the-passing-candidates[filtered-candidate-before-a-queried-one]", ok # {} \/ ~fbq)
+          /\ C("manager-commits-the-passing-candidates", ok # {} \/ fbq)
+          /\ c' = WinOf(Ev.st.win) /\ cm' = MgrOf(Ev.st.mgr)
+    /\ last' = NoLast
+\* an update that raises is never a step of the specification; the clause names the configuration class
+TUpdateRaised ==
+    /\ IsEvent("UpdateRaised") /\ ~T.full
+    /\ LET qs == [i \in DOMAIN Ev.xs |-> InSeq(i, Ev.q)]
+           fbq == \E r \in CWPFold(T.cws, T.thr, c, Ev.xs, 1) : FilteredBeforeQueried(r.pass, qs)
+       IN /\ C("update-must-not-raise[filtered-candidate-before-a-queried-one]", ~fbq)
+          /\ C("update-must-not-raise", fbq)
+          /\ FALSE
+    /\ UNCHANGED <<c, cm, last>>
+
+TNext == TQuery \/ TUpdateFull \/ TUpdateFilter \/ TUpdateRaised
 TSpec == TInit /\ [][TNext]_tvars
 Progress == TLCSet(tid, IF TLCGet(tid) < l THEN l ELSE TLCGet(tid))
 Post == /\ PrintT(<<"VALIDATED", Len(Traces)>>)
